@@ -333,6 +333,12 @@ def make_comparer(cmp, holder):
 
 def build_grader(spec, run, comparer=None):
     """returns the grader; recording wrappers are installed in `run` (unless a shared comparer is passed in)"""
+    cls, config = grader_class_and_config(spec, run, comparer)
+    return cls(**config)
+
+
+def grader_class_and_config(spec, run, comparer=None):
+    """the grader class and its configuration dictionary (keyword form)"""
     import numpy as np
     import mitxgraders
     from mitxgraders import FormulaGrader, NumericalGrader, MatrixGrader
@@ -371,15 +377,15 @@ def build_grader(spec, run, comparer=None):
                                            'msg_detail': pol.get('msg_detail', 'type')}
         if route == 'class_default':
             MatrixGrader.set_default_comparer(comparer)          # undone in execute()
-            return MatrixGrader(**config)
+            return MatrixGrader, config
         if route == 'subclass':
             class AuthorGrader(MatrixGrader):
                 default_comparer = staticmethod(comparer)
-            return AuthorGrader(**config)
-        return MatrixGrader(**config)
+            return AuthorGrader, config
+        return MatrixGrader, config
     if kind == 'Numerical':
-        return NumericalGrader(**config)
-    return FormulaGrader(**config)
+        return NumericalGrader, config
+    return FormulaGrader, config
 
 
 def execute(spec, comparer=None, holder=None):
@@ -926,7 +932,32 @@ def gen_entry(rng, n):
         mode = rng.choice(['all', 'none', 'some', 'some', 'some', 'shape'])
         bad = set(range(N)) if mode == 'none' else set() if mode in ('all', 'shape') else set(rng.sample(range(N), rng.randint(1, N - 1)))
         exp_entries, stu_entries = [], []
+        # entries of widely differing magnitude (ratio 1e1 .. 1e8), the errors sitting on the smallest or the largest ones
+        spread = (not exact) and (not use_vars) and rng.random() < 0.35
+        if spread and N >= 2:
+            ratio = 10.0 ** rng.randint(1, 8)
+            mags = [rng.choice([1.0, ratio, math.sqrt(ratio)]) * rng.choice([1, 2, 3, 0.5]) for _ in range(N)]
+            mags[rng.randrange(N)] = ratio * rng.choice([1, 2])
+            order = sorted(range(N), key=lambda j_: mags[j_])
+            nb = rng.randint(1, N - 1)
+            bad = set(order[:nb]) if rng.random() < 0.6 else set(order[-nb:])
+            if mode in ('all', 'shape'):
+                bad = set()
+            elif mode == 'none':
+                bad = set(range(N))
         for j in range(N):
+            if spread and N >= 2:
+                z = complex(mags[j] * rng.choice([1, -1]), 0)
+                e_txt = cnum(z)
+                te = tol_value(tolerance, abs(z))
+                if j in bad:
+                    d = (2000 * te if te > 0 else 0.5 * abs(z)) * rng.uniform(1, 2)
+                    s_txt = '%s+%s' % (e_txt, fnum(rng.choice([-1, 1]) * d))
+                else:
+                    s_txt = e_txt
+                exp_entries.append(e_txt)
+                stu_entries.append(s_txt)
+                continue
             if sometimes and j == 0:
                 # equal to the expected entry only when the sampled k happens to be 2: matches in some samples, not in others
                 exp_entries.append('2*k')
@@ -1246,6 +1277,82 @@ def shape_grid():
                         'student': st, 'expect': {'kind': 'wrongshape'}, 'exact': False, 'policy': pol, 'samples': 3,
                         'variables': ['x', 'y']})
     return out
+
+
+# ------------------------------------------------------------------------------------------------
+# configuration given as ONE dictionary object (positional form), reused for several graders
+# ------------------------------------------------------------------------------------------------
+def MatrixEntryDefaultMsg():
+    from mitxgraders.comparers import MatrixEntryComparer
+    return MatrixEntryComparer.default_msg
+
+
+def snapshot(x):
+    """structural snapshot of a configuration: plain data by value, every other object by identity"""
+    if isinstance(x, dict):
+        return ('dict', sorted(((repr(k), snapshot(v)) for k, v in x.items()), key=lambda kv: kv[0]))
+    if isinstance(x, (list, tuple)):
+        return (type(x).__name__, [snapshot(v) for v in x])
+    if x is None or isinstance(x, (bool, int, float, complex, str)):
+        return ('value', repr(x))
+    return ('object', id(x))
+
+
+def call_outcome(fn):
+    run = Run()
+    run.status, run.out = core.guarded(fn)
+    return outcome_key(run)
+
+
+def dict_form_checks(spec):
+    """Builds graders from ONE author-owned dict passed positionally: twice from the same dict object, once from the first
+    grader's own .config, once in keyword form.  The author's dict must come out unchanged and all graders must grade
+    the submission identically (and as the reference outcome `ref` of the ordinary run says).  For MatrixEntryComparer
+    specs the partial-credit settings are given through MatrixGrader's own entry_partial_credit / entry_partial_msg keys.
+    Returns a list of complaint strings."""
+    import numpy as np
+    holder = {'run': Run()}
+    comparer = make_comparer(spec['cmp'], holder)
+    plain = dict(spec)
+    plain.pop('route', None)
+    cls, config = grader_class_and_config(plain, holder['run'], comparer)
+    via_keys = spec['cmp']['name'] == 'entry' and spec['grader'] == 'Matrix' and not spec['cmp'].get('cfg', {}).get('transform')
+    if via_keys:
+        config['answers'] = {'expect': spec['params'][0], 'grade_decimal': spec.get('ag', 1)}
+        config['entry_partial_credit'] = spec['cmp'].get('cfg', {}).get('entry_partial_credit', 0)
+        if spec.get('entry_partial_msg') is not None:
+            config['entry_partial_msg'] = spec['entry_partial_msg']
+    before = snapshot(config)
+    complaints = []
+
+    def graded(make):
+        def go():
+            g = make()
+            random.seed(spec.get('seed', 0))
+            np.random.seed(spec.get('seed', 0) % (2 ** 32))
+            holder['run'] = Run()
+            return g(None, spec['student'])
+        return call_outcome(go)
+    first = {}
+
+    def make_first():
+        first['g'] = cls(config)
+        return first['g']
+    outcomes = [('first grader built from the dict', graded(make_first))]
+    if snapshot(config) != before:
+        complaints.append('building a grader from the author\'s configuration dict changed that dict')
+    outcomes.append(('second grader built from the same dict object', graded(lambda: cls(config))))
+    if snapshot(config) != before and not complaints:
+        complaints.append('building a second grader from the author\'s configuration dict changed that dict')
+    if 'g' in first and via_keys:
+        outcomes.append(('grader rebuilt from the first grader\'s .config', graded(lambda: cls(first['g'].config))))
+    outcomes.append(('grader built in keyword form', graded(lambda: cls(**config))))
+    ref = outcome_key(execute(plain))
+    for label, o in outcomes:
+        if o != ref:
+            complaints.append('%s gives %r, the reference grader (explicit comparer, keyword form) gives %r' % (label, o, ref))
+            break
+    return complaints
 
 
 # ------------------------------------------------------------------------------------------------
@@ -1793,6 +1900,27 @@ def run(ctx):
                 metas.append(spec)
             except Unrepresentable:
                 dist['not_expressible'] += 1
+    # --- one configuration dict object, several graders
+    drng = random.Random(15485863 * ctx['seed'] + 5)
+    entry_specs = [sp for sp in specs if sp['cmp']['name'] == 'entry' and (sp.get('expect') or {}).get('kind') == 'entry']
+    others = [sp for sp in specs if sp['cmp']['name'] != 'entry' and sp.get('route', 'explicit') == 'explicit']
+    chosen = drng.sample(entry_specs, min(len(entry_specs), 40 if ctx['tier'] == 'quick' else 200)) + \
+        drng.sample(others, min(len(others), 40 if ctx['tier'] == 'quick' else 200))
+    dist['dict_form_cases'] = len(chosen)
+    for sp in chosen:
+        sp = dict(sp)
+        if sp['cmp']['name'] == 'entry' and drng.random() < 0.5:
+            sp['entry_partial_msg'] = drng.choice(['Check the marked entries: {error_locations}', 'Some entries are off.', ''])
+            if sp['entry_partial_msg'] != MatrixEntryDefaultMsg():
+                sp['cmp'] = {'name': 'entry', 'cfg': dict(sp['cmp'].get('cfg', {}), entry_partial_msg=sp['entry_partial_msg'])}
+        res.oracle_evals += 1
+        try:
+            complaints = dict_form_checks(sp)
+        except Exception as e:
+            complaints = []
+            res.notes.append('dict-form check error on %s: %r' % (spec_key(sp), e))
+        for c in complaints:
+            plain.append({'key': 'dictform:' + spec_key(sp), 'kind': 'dict-form', 'what': c, 'spec': sp})
     # --- perturb-then-probe: everything above was the perturbation; the probes must behave as in a fresh interpreter
     probes = probe_specs()
     here = [outcome_key(execute(sp)) for sp in probes]
@@ -1835,6 +1963,10 @@ def replay(w):
         if verdict or outcome_key(fresh) != outcome_key(r):
             return True, text + '\n  violates the property' + (': ' + verdict['what'] if verdict else ' (history dependence)')
         return False, text + '\n  no complaint on the current tree'
+    if w.get('kind') == 'dict-form':
+        complaints = dict_form_checks(w['spec'])
+        text = 'C16 replay (one configuration dict, several graders): %s params=%r student=%r' % (json.dumps(w['spec']['cmp']), w['spec']['params'], w['spec']['student'])
+        return bool(complaints), text + ('\n  ' + '; '.join(complaints) if complaints else '\n  no complaint on the current tree')
     if w.get('kind') == 'probe':
         for sp in all_specs({'tier': w.get('tier', 'quick'), 'seed': w.get('run_seed', 0)}):
             execute(sp)
